@@ -54,7 +54,29 @@ def graphs(nU, nV):
 
 def _job(args):
     g, algo = args
-    return (g, algo, contract_cover(g, algo))
+    r = contract_cover(g, algo)
+    if r is None:
+        r = stored_cover_survives_later_calls(g, algo)
+    return (g, algo, r)
+
+
+def stored_cover_survives_later_calls(g, algo):
+    """the cover is a value: a caller may keep it while asking for the covers of other graphs (either algorithm) - it must not change behind its back"""
+    from renormalizer.lib.bipartite_matching.bipartite_matching import bipartite_vertex_cover
+    try:
+        tu, tv = bipartite_vertex_cover([list(a) for a in g], algo=algo)
+        before = ([bool(x) for x in tu], [bool(x) for x in tv])
+        nV = len(before[1])
+        others = [[[v for v in range(max(nV, 1))] for _ in range(max(len(g), 1))], [[] for _ in range(len(g) + 1)], [[0], [0, 1], [1]]]
+        for h in others:
+            for a2 in ("Hopcroft-Karp", "Hungarian"):
+                bipartite_vertex_cover([list(a) for a in h], algo=a2)
+        after = ([bool(x) for x in tu], [bool(x) for x in tv])
+    except Exception as e:
+        return ("post:bipartite_vertex_cover:total", f"raised {type(e).__name__}: {e} in a sequence of calls")
+    if before != after:
+        return ("post:bipartite_vertex_cover:stored_result_unchanged_by_later_calls", f"the cover tables kept from the call on {g} changed from {before} to {after} after covers of other graphs were computed")
+    return None
 
 
 # ---------------------------------------------------------------- consequence for operators: every bond of a graph-built MPO is a minimum cover of its cut
@@ -136,18 +158,40 @@ def w_bonds(case, led):
     for t in range(per):
         n, words = term_words(rng, structured=(1 if t % 4 == 0 else 2 if t % 4 == 2 else 0))
         terms = []
+        # every fifth table on sites WITH a conserved number: the letters carry charges (sigma_+ / sigma_- change it), terms of different total charge share
+        # complementary operators - a column still costs one bond index
+        charged = (t % 5 == 4)
+        if charged:
+            words = sorted({tuple("sigma_-" if x == "sigma_x" else x for x in w) for w in words})
+        chg = {"sigma_+": -1, "sigma_-": 1, "sigma_z": 0}
         for w in words:
             sym = " ".join(x for x in w if x != "I")
             dofs = [i for i, x in enumerate(w) if x != "I"]
-            terms.append(Op(sym, dofs, float(rng.uniform(0.5, 2.0)) * (1 if rng.random() < 0.5 else -1)))
-        model = Model([ba.BasisHalfSpin(i) for i in range(n)], terms)
+            f_ = float(rng.uniform(0.5, 2.0)) * (1 if rng.random() < 0.5 else -1)
+            terms.append(Op(sym, dofs, f_, qn=[chg[x] for x in w if x != "I"]) if charged else Op(sym, dofs, f_))
+        # a constant term E0 * 1 together with the `offset` argument: the table holds (E0 - offset) times the identity string - nothing when they cancel
+        offset = None
+        ref_words = set(words)
+        ident = tuple(["I"] * n)
+        if t % 3 == 1:
+            e0 = float(rng.uniform(0.5, 2.0))
+            terms.append(Op("I", 0, e0))
+            offset = e0 if t % 2 else e0 / 2
+            if offset != e0:
+                ref_words.add(ident)
+        words = sorted(ref_words)
+        model = Model([ba.BasisHalfSpin(i, sigmaqn=[0, 1]) if charged else ba.BasisHalfSpin(i) for i in range(n)], terms)
         want = [1] + [cut_cover(words, b) for b in range(1, n)] + [1]
         hall_fails = any(cut_cover(words, b) < min(len(set(w[:b] for w in words)), len(set(w[b:] for w in words))) for b in range(1, n))
         for algo in ("Hopcroft-Karp", "Hungarian"):
-            rep = {"nsites": n, "algo": algo, "terms": [repr(x) for x in terms], "minimum_cover_per_cut": want,
+            rep = {"nsites": n, "algo": algo, "terms": [repr(x) for x in terms], "minimum_cover_per_cut": want, "offset": offset, "letters_carry_charges": bool(charged),
                    "how": "Mpo(Model([BasisHalfSpin(i)...], terms), algo=algo).bond_dims vs the maximum matching of the (left part, right part) graph of the terms at every cut"}
             try:
-                got = [int(x) for x in Mpo(model, algo=algo).bond_dims]
+                if offset is None:
+                    got = [int(x) for x in Mpo(model, algo=algo).bond_dims]
+                else:
+                    from renormalizer.utils import Quantity
+                    got = [int(x) for x in Mpo(model, offset=Quantity(offset), algo=algo).bond_dims]
             except Exception as e:
                 led.check(False, "post:Mpo.__init__:total", "Mpo.__init__", f"raised {type(e).__name__}: {e}", (seed, chunk, t, algo), {"algo": algo}, rep)
                 continue
